@@ -293,3 +293,16 @@ Definition preperiod_period (d : N) : N * N :=
 Definition recurring_polls_of (d : N) : N :=
   let '(mu, lam) := preperiod_period d in 2 * lam + 2 * mu.
 
+(* rshift_n(a, n): for _ in 0..n { if self.is_zero() { break }; self.rshift() } -- the zero test inside the loop is
+   what bounds the work by the bit length of a, whatever the count n; a Small value shifts without polling (at most
+   64 times), a Large one polls once per limb per shift *)
+Definition rshift_n_trace (small : bool) (l bits n : N) : trace :=
+  repeat_trace (N.to_nat (N.min n bits))
+    (if small then [Work 1] else repeat_trace (N.to_nat l) [Poll; Work 1]).
+
+Definition l1_rshift_n_polls (sa : bool) (a : list N) (n : N) : N :=
+  if sa then 0 else nlen a * N.min n (N.size (limbs_val a)).
+
+(* lshift_n(a, n) polls at least once per inserted limb *)
+Definition l1_lshift_n_polls_min (n : N) : N := lshift_inserts n.
+
